@@ -223,6 +223,22 @@ Theorem every_stream_released_all_calls : forall g cfg start tms out dropped st 
 Proof. exact every_stream_released_resumed_s. Qed.
 Print Assumptions every_stream_released_all_calls.
 
+(* ... "drained or closed", literally.  Whatever each consumer does with the handle it was given — close
+   it ([drains h = false]) or read it to EOF — every stream that existed during any call of a finished
+   run is closed or drained at its source, by the propagation rules of schema/stream.go: a copied stream
+   is closed when all its copies are and drained as soon as one copy is; the sources of a merged stream
+   are closed / drained with it ([sclosed] / [sdrained], Proofs/StreamAcct.v).  A closed pipe tells its
+   writer "closed" on the next Send, a drained one has seen its writer finish (C08) *)
+Theorem every_stream_drained_or_closed : forall (drains : handle -> bool) g cfg start tms out dropped st s',
+  NoDup (all_keys g) -> ~ In kEND (all_keys g) ->
+  (g_dag g = true -> covered g = true /\ all_finished g st = true) ->
+  (g_dag g = false -> dropped = [] /\ g_eager g = false) ->
+  run_int g cfg start tms = Ok (SDone out dropped st) ->
+  consume out (rs_store st) = Ok s' ->
+  forall h, created (s_hist s') h -> sclosed drains (s_hist s') h \/ sdrained drains (s_hist s') h.
+Proof. exact every_stream_drained_or_closed_s. Qed.
+Print Assumptions every_stream_drained_or_closed.
+
 (* without an interrupt configuration a single call is the run of Model/StreamRun.v: the theorems
    above specialise to open_empty_at_end_* / every_stream_released *)
 Theorem run_int_without_interrupts_is_run : forall g b rest,
